@@ -39,6 +39,11 @@ pub struct Call {
     /// (if that returned text), not `docs[doc]`; the Source is then the call's own
     #[serde(default)]
     pub feed_prev: bool,
+    /// the call goes through a clone of a `Typstyle` value shared by all threads of the run
+    /// (an embedder keeps one configured formatter and clones it per request) instead of a fresh
+    /// `Typstyle::new`
+    #[serde(default)]
+    pub via_clone: bool,
 }
 
 #[derive(Serialize, Deserialize, Clone, Debug, PartialEq, Eq)]
